@@ -758,6 +758,10 @@ def bounded(opts):
 # (the C18 unit on the reader constructors, run here as well: a lost `degrees=` converts radian input a second time)
 def _register_shared():
     from . import C18 as _C18
+    from . import C12 as _C12
+    # "with patch centres each record goes to its nearest centre": the id of a record is what the nearest-centre search returns for
+    # exactly that record (C12 unit)
+    unit(P, "assign_patch_centers", fuc=["yaw.catalog.catalog:assign_patch_centers", "yaw.datachunk:DataChunk.get_coords"], trusted=["vq.vq"])(_C12.u_assign)
     # sequential creation: every chunk of the reader is split and handed to the writer exactly once, progress display on or off
     unit(P, "write_patches_unthreaded", fuc=["yaw.catalog.catalog:write_patches_unthreaded"])(_C09.u_unthreaded)
     unit(P, "Reader.__init__", fuc=["yaw.catalog.readers:DataReader.__init__", "yaw.catalog.readers:DataFrameReader.__init__", "yaw.catalog.readers:FitsReader.__init__",
